@@ -158,9 +158,11 @@ def run(prop, tier, seed):
     native_cases = [_variant(c, ty) for c in cases for ty in (("string", "u32", "arr4") if quick else ("string", "arr4"))]
     results["native"] = (native_cases,) + utilchan.run("native", native_cases, wd, "native", jobs=4, case_timeout=1.0)
     utilchan.build_asan()
-    asan_cases = [_variant(c, ty) for c in cases for ty in (("string",) if quick else ("string", "u32"))]
-    asan_cases += [_variant(c, "string", len(c["ops"])) for c in cases
-                   if len(c["ops"]) > 1 and any(o["op"] in ("clone", "move") for o in c["ops"])]
+    asan_cases = [_variant(c, "string") for c in cases]
+    last = [c for c in cases if len(c["ops"]) > 1 and any(o["op"] in ("clone", "move") for o in c["ops"])]
+    if len(last) > 6000:
+        last = sorted(rnd.sample(last, 6000), key=lambda c: c["id"])
+    asan_cases += [_variant(c, "u32", len(c["ops"])) for c in last]
     results["asan"] = (asan_cases,) + utilchan.run("asan", asan_cases, wd, "asan", jobs=4, case_timeout=2.0)
 
     # Miri is slow to start (seconds per process) and dies at the first UB: a seed-chosen sample, stratified by the risk
@@ -169,8 +171,8 @@ def run(prop, tier, seed):
     by_risk = collections.defaultdict(list)
     for c in cases:
         by_risk[_max_risk(c)].append(c)
-    plan = {"miri-tb": (6 if quick else 12, 2 if quick else 12, 1 if quick else 6),
-            "miri-sb": (3 if quick else 6, 0, 1 if quick else 4)}
+    plan = {"miri-tb": (6 if quick else 8, 2 if quick else 8, 1 if quick else 4),
+            "miri-sb": (3 if quick else 6, 0, 1 if quick else 3)}
     utilchan.build_miri(wd)
     for mode, (jobs, safe_per_job, risky_per_job) in plan.items():
         safe_pool = sorted(by_risk.get("", []) + by_risk.get("shared-live", []), key=lambda c: c["id"])
@@ -220,9 +222,9 @@ def run(prop, tier, seed):
         "exhaustive": True,
         "rule": "histories = all sequences of mutating operations enumerated by TLC (spec/props/C37.tla, configs %s), the full "
                 "read-only API is projected after every step; distinct = distinct histories; non-trivial = uses at least two "
-                "different operation kinds; every history is replayed natively for %d element types, under ASan for %d (+ an "
-                "observe-only-at-the-end variant of the histories that clone), and a seed-%d stratified sample under Miri (Tree Borrows and Stacked Borrows)"
-                % (",".join(cfgs), 3 if quick else 2, 1 if quick else 2, seed),
+                "different operation kinds; every history is replayed natively for %d element types, under ASan for T=String (+ an "
+                "observe-only-at-the-end variant with T=u32 of (at most 6000 of) the histories that clone), and a seed-%d stratified sample under Miri (Tree Borrows and Stacked Borrows)"
+                % (",".join(cfgs), 3 if quick else 2, seed),
         "histories": len(cases),
         "history_steps_expected": sum(len(c["expect"]) for c in cases),
         "ops_by_kind": dict(ops_count), "duplicate_inserts": dup_inserts,
